@@ -1,0 +1,53 @@
+//go:build verif
+
+package checker
+
+// Machine-checked contracts for the resolution of local variables across macro boundaries
+// (see /verif/DESIGN.md, C31).  This file contains no declarations: it only carries
+// specification comments that the elkvc verification-condition generator reads.
+
+/*@
+// A macro expansion is checked inside a local environment of type macroBoundary whose parent is
+// the environment of the call site.  Looking a name up walks the parent chain; hygiene is the
+// rule that the walk stops AT a macro boundary (after looking into the boundary environment
+// itself, which holds the expansion's own locals) unless the lookup happens inside an explicit
+// `unhygienic` splice.  visible(env, s, u) is that rule as a function: the binding the name s
+// denotes when looked up from env.
+spec rec fn visible(e *localEnvironment, s value.Symbol, u bool) *local = ite(e == nil, nil, ite(mapHas(e.locals, s), e.locals[s], ite(e.typ == macroBoundaryLocalEnvType && !u, nil, visible(e.parent, s, u))))
+
+func (*localEnvironment).resolveLocal
+  props C31
+  nosafety
+  noterm
+  requires value.SymbolTable != nil && lockOf(value.SymbolTable) == 0
+  ensures binding: ret0 == visible(l, symOf(value.SymbolTable, name), unhygienic)
+  ensures ctx: ret1 == nil ==> ret0 == nil
+  loop 1
+    invariant nameSymbol == symOf(value.SymbolTable, name)
+    invariant visible(currentEnv, nameSymbol, unhygienic) == visible(l, nameSymbol, unhygienic)
+
+// the environment a macro expansion is checked in: a fresh, empty boundary on top of the
+// environment of the call site
+func (*Checker).pushMacroBoundaryLocalEnv
+  props C31
+  nosafety
+  requires c != nil && len(c.localEnvs) >= 1
+  ensures boundary: ret != nil && ret.typ == macroBoundaryLocalEnvType && ret.parent == old(elem(c.localEnvs, len(c.localEnvs) - 1))
+  ensures pushed: len(c.localEnvs) == old(len(c.localEnvs)) + 1 && elem(c.localEnvs, len(c.localEnvs) - 1) == ret
+
+// the body of an expansion is checked with the boundary as the current environment
+func (*Checker).checkMacroBoundaryNode
+  props C31
+  nosafety
+  partial
+  requires c != nil && len(c.localEnvs) >= 1
+  assert before checkStatements#1: len(c.localEnvs) >= 2 && elem(c.localEnvs, len(c.localEnvs) - 1).typ == macroBoundaryLocalEnvType && elem(c.localEnvs, len(c.localEnvs) - 1).parent == old(elem(c.localEnvs, len(c.localEnvs) - 1))
+
+// an `unhygienic` splice is checked with the flag set
+func (*Checker).checkExpressionUnhygienicNode
+  props C31
+  nosafety
+  partial
+  requires c != nil
+  assert before checkExpression#1: c.isUnhygienic()
+@*/
